@@ -27,14 +27,14 @@ func isPathPkg(f *ssa.Function, name string) bool {
 
 type c11State struct {
 	helperDepth int
-	c       *Ctx
-	htfs    *types.Named
-	cwdIdx  int
-	rootIdx int
-	cwdOK   bool
-	rp      *ssa.Function
-	memoRC  map[ssa.Value]int // 0 unknown, 1 in progress, 2 true, 3 false
-	whyNot  map[ssa.Value]string
+	c           *Ctx
+	htfs        *types.Named
+	cwdIdx      int
+	rootIdx     int
+	cwdOK       bool
+	rp          *ssa.Function
+	memoRC      map[ssa.Value]int // 0 unknown, 1 in progress, 2 true, 3 false
+	whyNot      map[ssa.Value]string
 }
 
 // rootedClean: v is an absolute, cleaned path (no ".." element can remain: a rooted path cleaned lexically never rises above "/").
